@@ -190,7 +190,7 @@ def mxRun (order : Nat) (steps : List (String × Nat × Nat)) : List V :=
 
 /-! ### the model of every op -/
 
-def binaryNames : List String := ["union", "is_subdigraph", "is_superdigraph", "is_spanning_subdigraph"]
+def binaryNames : List String := ["union", "is_subdigraph", "is_superdigraph", "is_spanning_subdigraph", "clone_from"]
 
 /-- `p ∈ [0, 1]` from the IEEE-754 bits. -/
 def pOk (bits : Nat) : Bool := bits ≤ 0x3FF0000000000000 || bits == 0x8000000000000000
@@ -224,6 +224,100 @@ def model (oc : Bool) (t : Nat) : String → List V → Option M
       let ps ← V.listOf? (V.pair? V.nat? V.nat?) rows
       pure (ofCls (Cls.ofBool (elPairsPanics oc ps)) ["rows", "repr-el"])
     else none
+  | "chk_rows_all", [.a repr, rows] => do
+    -- `From<rows | maps | pairs>`; when it returns: `ret <order> <number of consumers that panicked>`
+    let zeroPanics (n : Nat) : List V → Bool
+      | [.a "ret", .i k, .i p] => k == (n : Int) && p == 0
+      | [.a "panic"] => true
+      | _ => false
+    let (c, n) ← (
+      if repr == "al" || repr == "am" then do
+        let rs ← V.listOf? (V.listOf? V.nat?) rows
+        pure (Cls.ofBool (rowsPanics rs), rs.length)
+      else if repr == "wu" || repr == "wi" then do
+        let rs ← V.listOf? (V.listOf? (V.pair? V.nat? V.int?)) rows
+        pure (Cls.ofBool (rowsPanics (rs.map (·.map (·.1)))), rs.length)
+      else if repr == "mx" then do
+        let ps ← V.listOf? (V.pair? V.nat? V.nat?) rows
+        pure (Cls.ofBool (mxPairsPanics ps), ps.foldl (fun m p => max m (max p.1 p.2)) 0 + 1)
+      else if repr == "el" then do
+        let ps ← V.listOf? (V.pair? V.nat? V.nat?) rows
+        pure (Cls.ofBool (elPairsPanics oc ps), ps.foldl (fun m p => max m (max p.1 p.2)) 0 + 1)
+      else none : Option (Cls × Nat))
+    pure { ofCls c ["rows-all", "repr-" ++ repr, if c == .panic then "rows-invalid" else "rows-valid"] (check := zeroPanics n)
+           with strict := true, shown := clsName c ++ s!" {n} 0" }
+  | "chk_repoll", .a name :: rest => do
+    let lateZero : List V → Bool
+      | [.a "ret", _, .i late] => late == 0
+      | [.a "panic"] => true
+      | _ => false
+    if name == "dm_eccentricities" || name == "dm_periphery" then
+      match rest with
+      | [.l _, _, order] => do
+        let order ← V.nat? order
+        pure { ofCls (Cls.ofBool (order == 0)) ["repoll", "it-" ++ name] (check := lateZero) with shown := "no item after the first None" }
+      | _ => none
+    else
+      match rest with
+      | desc :: more => do
+        let d := toDG (← GDesc.parse desc)
+        let a ← natArgs more
+        let needsV := name == "out_neighbors" || name == "out_neighbors_weighted"
+        let weightedOnly := name == "arcs_weighted" || name == "out_neighbors_weighted"
+        if weightedOnly && d.unweighted then none
+        let p ← match a with
+          | [] => if needsV || name == "in_neighbors" then none else some false
+          | [x] => if needsV then some (!d.isV x) else if name == "in_neighbors" then some false else none
+          | _ => none
+        let count : Option Nat :=
+          if name == "vertices" || name.endsWith "_sequence" then some d.order
+          else if name == "arcs" || name == "arcs_weighted" then some (d.verts.map (fun u => (d.succs u).length)).sum
+          else match name, a with
+            | "out_neighbors", [x] => some (d.succs x).length
+            | "out_neighbors_weighted", [x] => some (d.succs x).length
+            | _, _ => none
+        let chk : List V → Bool := fun obs => lateZero obs && (match obs, count with
+          | [.a "ret", .i k, _], some n => k == (n : Int)
+          | _, _ => true)
+        pure { ofCls (Cls.ofBool p) (["repoll", "it-" ++ name] ++ dgTags d ++ a.map (argTag d)) (check := chk) with
+               shown := s!"{clsName (Cls.ofBool p)} {count} 0 (no item after the first None)" }
+      | _ => none
+  | "chk_interleave", .a name :: d1 :: d2 :: more => do
+    let a := toDG (← GDesc.parse d1)
+    let b := toDG (← GDesc.parse d2)
+    let x ← natArgs more
+    let p ← match name, x with
+      | "out_neighbors", [v] => some (!a.isV v || !b.isV v)
+      | "in_neighbors", [_] => some false
+      | _, [] => if name == "out_neighbors" || name == "in_neighbors" then none else some false
+      | _, _ => none
+    let lateZero : List V → Bool
+      | [.a "ret", _, _, .i late] => late == 0
+      | [.a "panic"] => true
+      | _ => false
+    pure { ofCls (Cls.ofBool p) (["interleave", "it-" ++ name] ++ dgTags a) (check := lateZero) with
+           shown := "no item after an iterator's first None" }
+  | "chk_twice", .a name :: desc :: rest => do
+    let d := toDG (← GDesc.parse desc)
+    let tags := ["twice-" ++ name] ++ dgTags d
+    let src ← match rest with
+      | [] => pure []
+      | [s] => V.listOf? V.nat? s
+      | _ => none
+    let firstCall (alg : String) : Option Cls := do
+      let out ← algOut alg d src []
+      pure (match out with | [.a "panic"] => Cls.panic | _ => Cls.ret)
+    let c ← match name with
+      | "bfs_dist_distances" => firstCall "bfs_dist_distances"
+      | "bfs_pred_predecessors" => firstCall "bfs_pred_predecessors"
+      | "dfs_pred_predecessors" => firstCall "dfs_pred_predecessors"
+      | "dijkstra" => if d.repr == "wu" then firstCall "dijkstra_dist_distances" else none
+      | "tarjan" => some .ret
+      | "johnson" => if d.repr == "am" then some (Cls.ofBool (d.verts.any (· ≥ d.order))) else none
+      | "fw" => if d.repr == "wi" then some .ret else none
+      | "bfm" => if d.repr == "wi" then (match src with | s :: _ => some (Cls.ofBool (s ≥ d.order)) | [] => none) else none
+      | _ => none
+    pure (ofCls c tags)
   | "chk_from", [src, .a dst] => do
     let d := toDG (← GDesc.parse src)
     if !d.unweighted || dst == d.repr || !["al", "am", "mx", "el", "wu", "wi"].contains dst then none
@@ -288,6 +382,11 @@ def model (oc : Bool) (t : Nat) : String → List V → Option M
       pure (op, x, ← y))
     let out := mxRun n ss
     pure { exactM out ["mx", sizeTag n] (n ≥ 2) with strict := false }
+  | "chk_it", [k, desc, src, rounds, shape] => do
+    -- the shape of the caller's source iterator (its `size_hint`) must not matter
+    let sh ← V.nat? shape
+    let m ← model oc t "chk_it" [k, desc, src, rounds]
+    pure { m with tags := m.tags ++ [s!"src-shape{sh}"] }
   | "chk_it", [.a kind, desc, src, rounds] => do
     let d := toDG (← GDesc.parse desc)
     let src ← V.listOf? V.nat? src
@@ -389,7 +488,7 @@ def hLeak : Handler := fun t args obs =>
   | _, _ => none
 
 def handlers : List (String × Handler) :=
-  (["chk_gen", "chk_rows", "chk_from", "chk_q", "chk_chain", "chk_hist", "chk_mx", "chk_it", "chk_alg", "chk_dm", "chk_pt",
+  (["chk_gen", "chk_rows", "chk_from", "chk_q", "chk_rows_all", "chk_repoll", "chk_interleave", "chk_twice", "chk_chain", "chk_hist", "chk_mx", "chk_it", "chk_alg", "chk_dm", "chk_pt",
     "chk_prng"].map (fun op => (op, handle op))) ++ [("chk_leak", hLeak)]
 
 end GraafVerif.Driver.H13
